@@ -593,7 +593,8 @@ Termination == <>[]AllDone
 (* written by a final store (not by the UpdateTTL re-store of a stale copy). *)
 FreshBuilt(k) == be[k] # None /\ be[k].e > now /\ bsrc[k] = "build"
 EconomySyncRead ==
-  [][\A p \in Procs : SyncRead /\ ~Skip[p] /\ pc[p] = "bstart" /\ pc'[p] = "bend" => ~FreshBuilt(K(p))]_vars
+  [][\A p \in Procs : SyncRead /\ ~Skip[p] /\ loc[p].rd.c # "beerr" /\ pc[p] = "bstart" /\ pc'[p] = "bend"
+         => ~FreshBuilt(K(p))]_vars    \* (a failed backend read tells the caller nothing: FailoverOf then builds)
 (* C05: no build starts while a failure is cached for the key (unless SkipRead). *)
 EconomyFailCache ==
   [][\A p \in Procs : pc[p] = "failcheck" /\ pc'[p] \notin {"failcheck", "release"} => ~FailCached(K(p), Skip[p])]_vars
